@@ -4,7 +4,9 @@
 (*                                                                         *)
 (* Anchors: teos/src/config.rs (from_file, Config::patch_with_options,     *)
 (* Config::verify, Config::default), teos/src/conf_template.toml, the      *)
-(* start of teos/src/main.rs.                                              *)
+(* start of teos/src/main.rs; teos/src/cli_config.rs and the start of      *)
+(* teos/src/cli.rs for the admin tool teos-cli, which reads two settings   *)
+(* from the same file and has a command line of its own.                   *)
 (*                                                                         *)
 (* A SOURCE (the configuration file, or the command line) is a function    *)
 (* from the set of options it mentions to the values it gives them.  The   *)
@@ -95,7 +97,21 @@ NetDefaultPort == [mainnet |-> 8332, testnet |-> 18332, signet |-> 38332, regtes
 NetNames == [mainnet |-> {"mainnet", "main"}, testnet |-> {"testnet", "test"},
              signet |-> {"signet"}, regtest |-> {"regtest"}]
 
+\* teos-cli (teos/src/cli_config.rs) reads teos.toml too and uses two of its settings: where the tower's RPC server
+\* is.  Its documented defaults are those of `teos-cli -h` ("[default: localhost]", "[default: 8814]"), its options
+\* are spelled like the daemon's, and a command (ToolCommand is one) follows them.
+Programs == {"teosd", "teos-cli"}
+ToolOpts == {"rpc_bind", "rpc_port"}
+ToolDocDefault == [rpc_bind |-> "localhost", rpc_port |-> 8814]
+ToolCommand == "gettowerinfo"
+
+ReadOpts(p)    == IF p = "teosd" THEN AllOpts ELSE ToolOpts       \* what the program takes from the file
+CliOptsOf(p)   == IF p = "teosd" THEN CliOpts ELSE ToolOpts       \* what its command line can say
+SettingsOf(p)  == IF p = "teosd" THEN SettingOpts ELSE ToolOpts   \* the settings with a documented default
+DocDefaultOf(p) == IF p = "teosd" THEN DocDefault ELSE ToolDocDefault
+
 ASSUME DOMAIN DocDefault = SettingOpts
+ASSUME DOMAIN ToolDocDefault = ToolOpts /\ ToolOpts \subseteq CliOpts
 ASSUME DOMAIN CliName = CliOpts
 ASSUME DOMAIN NetDefaultPort = KnownNetworks /\ DOMAIN NetNames = KnownNetworks
 
@@ -104,23 +120,29 @@ ASSUME DOMAIN NetDefaultPort = KnownNetworks /\ DOMAIN NetNames = KnownNetworks
 
 Has(src, o) == o \in DOMAIN src
 
-\* A well-formed pair of sources: the file may mention anything; the command line only what it has an option
-\* for, and a switch can only be given (TRUE).  An explicit port 0 is an unspecified corner (DESIGN.md C20).
-WellFormed(file, cli) ==
+\* A well-formed pair of sources for program p: the file (shared by both programs) may mention anything; the
+\* command line only what p has an option for, and a switch can only be given (TRUE).  An explicit port 0 is an
+\* unspecified corner (DESIGN.md C20).
+WellFormed(p, file, cli) ==
+    /\ p \in Programs
     /\ DOMAIN file \subseteq AllOpts
-    /\ DOMAIN cli \subseteq CliOpts
+    /\ DOMAIN cli \subseteq CliOptsOf(p)
     /\ \A o \in DOMAIN cli \cap (FlagOpts \cup OneShotOpts) : cli[o] = TRUE
     /\ \A o \in DOMAIN file \cap (FlagOpts \cup OneShotOpts) : file[o] \in BOOLEAN
     /\ Has(file, RpcPortOpt) => file[RpcPortOpt] # 0
     /\ Has(cli, RpcPortOpt) => cli[RpcPortOpt] # 0
 
 \* Command line over file over documented default; the destructive one-shot switches only from the command line.
-Effective(file, cli, o) ==
+EffectiveOf(p, file, cli, o) ==
     IF Has(cli, o) THEN cli[o]
     ELSE IF Has(file, o) /\ o \notin OneShotOpts THEN file[o]
-    ELSE DocDefault[o]
+    ELSE DocDefaultOf(p)[o]
 
-Settings(file, cli) == [o \in SettingOpts |-> Effective(file, cli, o)]
+SettingsFor(p, file, cli) == [o \in SettingsOf(p) |-> EffectiveOf(p, file, cli, o)]
+
+\* the daemon's
+Effective(file, cli, o) == EffectiveOf("teosd", file, cli, o)
+Settings(file, cli) == SettingsFor("teosd", file, cli)
 
 PortExplicit(file, cli) == Has(cli, RpcPortOpt) \/ Has(file, RpcPortOpt)
 ExplicitPort(file, cli) == IF Has(cli, RpcPortOpt) THEN cli[RpcPortOpt] ELSE file[RpcPortOpt]
@@ -146,8 +168,12 @@ FinalPort(file, cli) ==
     IF PortExplicit(file, cli) THEN ExplicitPort(file, cli)
     ELSE NetDefaultPort[Effective(file, cli, NetOpt)]
 
-\* Everything the conformance checks compare, for one pair of sources.
-Expect(file, cli) ==
+\* Everything the conformance checks compare, for one program and one pair of sources.
+Expect(p, file, cli) ==
+    IF p # "teosd"
+    THEN [settings |-> SettingsFor(p, file, cli), port_explicit |-> FALSE, port |-> 0, accept |-> TRUE, reasons |-> {},
+          final_port |-> 0, final_network |-> {}]      \* teos-cli has no verification step
+    ELSE
     [settings |-> Settings(file, cli),
      port_explicit |-> PortExplicit(file, cli),
      port |-> IF PortExplicit(file, cli) THEN ExplicitPort(file, cli) ELSE 0,   \* 0: not constrained before verify
@@ -158,7 +184,8 @@ Expect(file, cli) ==
 
 -----------------------------------------------------------------------------
 (* 2. The start-up sequence (main.rs: from_file, patch_with_options,       *)
-(*    verify), with the code's representation.                             *)
+(*    verify; cli.rs: from_file, patch_with_options), with the code's      *)
+(*    representation.                                                      *)
 (*                                                                         *)
 (* Deviations: named wrong variants of a step, switched on through the     *)
 (* constant; each must be caught by an invariant below.                    *)
@@ -171,27 +198,31 @@ Expect(file, cli) ==
 (*   "net_any"            unknown networks run with mainnet's port         *)
 (*   "verify_before_patch" verification sees the file only                 *)
 
-VARIABLES file, cli,    \* the two sources (chosen initially, never changed)
-          stage,        \* "start" -> "loaded" -> "patched" -> "running" | "refused"
+VARIABLES prog,         \* which program starts
+          file, cli,    \* the two sources (chosen initially, never changed)
+          stage,        \* teosd: "start" -> "loaded" -> "patched" -> "running" | "refused"
+                        \* teos-cli: "start" -> "loaded" -> "ready"
           conf          \* the configuration object as it evolves
 
-cvars == <<file, cli, stage, conf>>
+cvars == <<prog, file, cli, stage, conf>>
 
 PortUnset == 0
 StartConf == [o \in AllOpts |-> IF o = RpcPortOpt THEN PortUnset ELSE DocDefault[o]]
+StartConfOf(p) == IF p = "teosd" THEN StartConf ELSE ToolDocDefault
 
-InitWith(f, c) ==
+InitWith(p, f, c) ==
+    /\ prog = p
     /\ file = f
     /\ cli = c
     /\ stage = "start"
-    /\ conf = StartConf
+    /\ conf = StartConfOf(p)
 
-\* from_file: the defaults overlaid with whatever the file mentions
+\* from_file: the defaults overlaid with whatever the file says about the options the program reads
 LoadFile ==
     /\ stage = "start"
-    /\ conf' = [o \in AllOpts |-> IF Has(file, o) THEN file[o] ELSE conf[o]]
+    /\ conf' = [o \in ReadOpts(prog) |-> IF Has(file, o) THEN file[o] ELSE conf[o]]
     /\ stage' = "loaded"
-    /\ UNCHANGED <<file, cli>>
+    /\ UNCHANGED <<prog, file, cli>>
 
 PatchedValue(o) ==
     IF o \in OneShotOpts
@@ -202,9 +233,9 @@ PatchedValue(o) ==
 
 Patch ==
     /\ stage = "loaded"
-    /\ conf' = [o \in AllOpts |-> PatchedValue(o)]
-    /\ stage' = "patched"
-    /\ UNCHANGED <<file, cli>>
+    /\ conf' = [o \in ReadOpts(prog) |-> PatchedValue(o)]
+    /\ stage' = IF prog = "teosd" THEN "patched" ELSE "ready"
+    /\ UNCHANGED <<prog, file, cli>>
 
 CodeAuthOk(c) ==
     IF "auth_any" \in Deviations
@@ -217,6 +248,7 @@ CodeNetPort(c) ==
     IF c.btc_network \in KnownNetworks THEN NetDefaultPort[c.btc_network] ELSE NetDefaultPort["mainnet"]
 
 Verify ==
+    /\ prog = "teosd"
     /\ stage = "patched"
     /\ LET c == IF "verify_before_patch" \in Deviations
                 THEN [o \in AllOpts |-> IF Has(file, o) THEN file[o] ELSE StartConf[o]]
@@ -228,29 +260,30 @@ Verify ==
                                IF @ = PortUnset \/ "port_forced" \in Deviations THEN CodeNetPort(conf) ELSE @]
           ELSE /\ stage' = "refused"
                /\ UNCHANGED conf
-    /\ UNCHANGED <<file, cli>>
+    /\ UNCHANGED <<prog, file, cli>>
 
-Done == stage \in {"running", "refused"}
+Done == stage \in {"running", "refused", "ready"}
 
 StartupNext == LoadFile \/ Patch \/ Verify
 
 -----------------------------------------------------------------------------
 (* Monitors: the property as a relation between the two sources and a      *)
-(* configuration object cf observed at stage st ("patched": after the      *)
-(* command line was applied; "running" / "refused": after verification).   *)
+(* configuration object cf of program p observed at stage st ("patched" /  *)
+(* "ready": after the command line was applied; "running" / "refused":     *)
+(* after the daemon's verification).                                       *)
 (* The invariants below apply them to the specification's own variables;   *)
 (* Trace_Config applies the same operators to what the real code did.      *)
 
-AfterPatch == {"patched", "running", "refused"}
+AfterPatch == {"patched", "running", "refused", "ready"}
 
 \* settings that are not the command-line value if given, else the file value, else the documented default
 \* (a running daemon may carry the selected network under any of its names)
-BadSettings(f, c, st, cf) ==
+BadSettings(p, f, c, st, cf) ==
     IF st \notin AfterPatch THEN {}
-    ELSE {o \in SettingOpts :
-            IF o = NetOpt /\ st = "running" /\ Effective(f, c, o) \in KnownNetworks
-            THEN cf[o] \notin NetNames[Effective(f, c, o)]
-            ELSE cf[o] # Effective(f, c, o)}
+    ELSE {o \in SettingsOf(p) :
+            IF o = NetOpt /\ st = "running" /\ EffectiveOf(p, f, c, o) \in KnownNetworks
+            THEN cf[o] \notin NetNames[EffectiveOf(p, f, c, o)]
+            ELSE cf[o] # EffectiveOf(p, f, c, o)}
 
 \* the daemon runs iff exactly one authentication method and a known network are configured
 BadVerdict(f, c, st) ==
@@ -265,7 +298,7 @@ BadPort(f, c, st, cf) ==
 -----------------------------------------------------------------------------
 (* The sequence implements the property (checked by TLC on every case).    *)
 
-SettingsAreEffective == BadSettings(file, cli, stage, conf) = {}
+SettingsAreEffective == BadSettings(prog, file, cli, stage, conf) = {}
 
 RefusalIsExact == ~BadVerdict(file, cli, stage)
 
@@ -274,7 +307,7 @@ PortFollowsNetwork == ~BadPort(file, cli, stage, conf)
 \* the destructive switches act only when given on the command line (implied by SettingsAreEffective; stated
 \* on its own because it is the clause that protects the tower key)
 OneShotsOnlyFromCli ==
-    stage \in AfterPatch => \A o \in OneShotOpts : conf[o] = Has(cli, o)
+    (prog = "teosd" /\ stage \in AfterPatch) => \A o \in OneShotOpts : conf[o] = Has(cli, o)
 
 \* what "safe to run" means, stated on the final configuration alone
 RunningIsSafe ==
